@@ -54,18 +54,20 @@ def run(rep, tier):
                     'harness/c14.cc (rewrite command)']
     rep.assumptions += ['rewriting code other than the simplifier tables is tied by this oracle, not modelled in Coq', 'findings D5 D6 D16 D22 D23 D24 (fixed in /repo) are replayed from the corpus first', 'coordinates of flattened detectors are not compared here']
     rng = rep.rng()
-    N = 420 if quick else 6000
+    N = 720 if quick else 9000
     corpus = [('decomposed', 'MX !0'), ('decomposed', 'MRY !0'), ('decomposed', 'MXX !0 1'), ('decomposed', 'MZZ 0 !1'),
               ('decomposed', 'M(0.125) 0'), ('decomposed', 'MPP(0.125) X0*Y1'), ('decomposed', 'M 0\nCZ 0 rec[-1]'),
               ('decomposed', 'CZ 0 sweep[1]'), ('decomposed', 'SPP_DAG !X0*Y1 Z2'), ('decomposed', 'MX 0 1 0'),
               ('inline_feedback', 'M 0\nXCZ 1 rec[-1]\nM 1\nDETECTOR rec[-1] rec[-2]'),
               ('inline_feedback', 'M 0\nYCZ 1 rec[-1]\nMY 1\nDETECTOR rec[-1]'),
+              ('inline_feedback', 'RX 0\nR 1\nM 0\nCX rec[-1] 0 0 1\nM 1\nDETECTOR rec[-1]'),
+              ('inline_feedback', 'RX 0\nR 1\nM 0\nXCZ 0 rec[-1] 1 0\nM 1\nOBSERVABLE_INCLUDE(0) rec[-1]'),
               ('time_reversed', 'R 0\nMR 0 0\nDETECTOR rec[-1]'), ('time_reversed', 'R 0\nM !0\nDETECTOR rec[-1]')]
     todo = []
     for kind, text in corpus:
         todo.append((kind, text, None))
     for k in range(N):
-        kind = KINDS[k % len(KINDS)]
+        kind = (KINDS + ['inline_feedback', 'decomposed'])[k % (len(KINDS) + 2)]
         todo.append((kind, None, None))
     jobs = []
     tr_jobs = []
@@ -358,6 +360,10 @@ def gen_for(rng, gates, names, kind, nsweep):
     n, body = gencirc.gen_circuit(rng, gates, prof, sweep_count=nsweep)
     if noise:
         body = c03.restrict_noise(rng, body, 'approx')
+    if kind == 'inline_feedback' and rng.random() < 0.7:
+        n, body = gen_feedback_circuit(rng, noise)
+    if kind in ('inline_feedback', 'decomposed', 'flattened') and rng.random() < 0.6:
+        mix_feedback_pairs(rng, body, names, n)
     if kind in ('without_tags', 'without_noise', 'decomposed') and rng.random() < 0.6:
         add_tags(rng, body)
     if kind in ('inline_feedback', 'flattened', 'decomposed', 'without_noise', 'time_reversed') and rng.random() < 0.8:
@@ -377,6 +383,76 @@ def gen_for(rng, gates, names, kind, nsweep):
         if kind == 'time_reversed':
             body = [i for i in body if i.name != 'OBSERVABLE_INCLUDE' or rng.random() < 0.5]
     return stimtext.circuit_text(body)
+
+
+def gen_feedback_circuit(rng, noise):
+    """feedback-dense circuits: every feedback form (CX/CY/CZ rec first, CZ/XCZ/YCZ rec second), feedback pairs mixed with ordinary pairs
+    on the same qubits inside one instruction, adjacent same-gate lines (which the parser fuses)"""
+    I, T = stimtext.Instr, stimtext.T
+    n = rng.choice([2, 3, 4])
+    out = [I(rng.choice(['R', 'RX', 'RY']), [], [T('q', q)]) for q in range(n)]
+    nmeas = 0
+    for _ in range(rng.randint(4, 10)):
+        k = rng.random()
+        if k < 0.3 or nmeas == 0:
+            g = rng.choice(['M', 'MX', 'MY', 'MR', 'MRX', 'M'])
+            qs = rng.sample(range(n), rng.choice([1, 1, 2]))
+            out.append(I(g, [], [T('q', q, inv=rng.random() < 0.2) for q in qs]))
+            nmeas += len(qs)
+        elif k < 0.65:
+            g = rng.choice(['CX', 'CY', 'CZ', 'CZ', 'XCZ', 'YCZ'])
+            ts = []
+            for _ in range(rng.choice([1, 2, 2, 3])):
+                q = rng.randrange(n)
+                if rng.random() < 0.6:
+                    bit = T('rec', rng.randint(1, min(nmeas, 4)))
+                    first = g in ('CX', 'CY') or (g == 'CZ' and rng.random() < 0.5)
+                    ts += [bit, T('q', q)] if first else [T('q', q), bit]
+                else:
+                    r = rng.choice([x for x in range(n) if x != q])
+                    ts += [T('q', q), T('q', r)]
+            out.append(I(g, [], ts))
+        elif k < 0.85:
+            g = rng.choice(['H', 'S', 'SQRT_X', 'CX', 'CZ', 'SWAP', 'H_YZ'])
+            if g in ('CX', 'CZ', 'SWAP'):
+                a, b = rng.sample(range(n), 2)
+                out.append(I(g, [], [T('q', a), T('q', b)]))
+            else:
+                out.append(I(g, [], [T('q', rng.randrange(n))]))
+        elif noise:
+            out.append(I(rng.choice(['X_ERROR', 'Z_ERROR', 'DEPOLARIZE1']), [rng.choice([0.01, 0.02])], [T('q', rng.randrange(n))]))
+    out.append(I(rng.choice(['M', 'MX', 'M']), [], [T('q', q) for q in range(n)]))
+    return n, out
+
+
+def mix_feedback_pairs(rng, body, names, n):
+    """one instruction holding a feedback pair AND ordinary pairs that reuse the fed-back qubit (what adjacent lines fuse into)"""
+    if n < 2:
+        return
+    for i in all_instrs(body):
+        if i.name == 'REPEAT' or len(i.targets) != 2:
+            continue
+        g = names.get(i.name).name
+        if g not in ('CX', 'CY', 'CZ', 'XCZ', 'YCZ'):
+            continue
+        a, b = i.targets
+        if a.kind == 'rec' and b.kind == 'q':
+            q = b.val
+        elif b.kind == 'rec' and a.kind == 'q':
+            q = a.val
+        else:
+            continue
+        others = [x for x in range(n) if x != q]
+        if not others:
+            continue
+        extra = []
+        for _ in range(rng.choice([1, 1, 2])):
+            r = rng.choice(others)
+            extra += rng.choice([[stimtext.T('q', q), stimtext.T('q', r)], [stimtext.T('q', r), stimtext.T('q', q)]])
+        if rng.random() < 0.7:
+            i.targets = list(i.targets) + extra
+        else:
+            i.targets = extra + list(i.targets)
 
 
 def only_invertible(body, names):
